@@ -64,19 +64,12 @@ def registry_snapshot():
     from dali import command, address
     from dali.gear import general as gg
     from dali.device import general as dg, pushbutton
-    parts = [
-        [(k, [c.__name__ for c in v]) for k, v in command.Command._framesizes.items()],
-        [c.__name__ for c in command.Command._commands],
-        [c.__name__ for c in gg._GearCommand._gearcommands],
-        sorted((str(k), v.__name__) for k, v in gg._StandardCommand._opcodes.items()),
-        sorted((str(k), v.__name__) for k, v in gg._SpecialCommand._opcodes.items()),
-        [c.__name__ for c in dg._DeviceCommand._devicecommands],
-        sorted((str(k), v.__name__) for k, v in dg._StandardDeviceCommand._opcodes.items()),
-        sorted((str(k), v.__name__) for k, v in dg._StandardInstanceCommand._opcodes.items()),
-        sorted((str(k), v.__name__) for k, v in dg._Event._instance_types.items()),
-        sorted((str(k), v.__name__) for k, v in pushbutton._PushbuttonEvent._event_classes.items()),
-        [c.__name__ for c in address.Address._addrtypes],
-    ]
+    from gen import _registry as reg
+    parts = [reg.canon(x) for x in (
+        command.Command._framesizes, command.Command._commands, gg._GearCommand._gearcommands,
+        gg._StandardCommand._opcodes, gg._SpecialCommand._opcodes, dg._DeviceCommand._devicecommands,
+        dg._StandardDeviceCommand._opcodes, dg._StandardInstanceCommand._opcodes, dg._Event._instance_types,
+        pushbutton._PushbuttonEvent._event_classes, address.Address._addrtypes)]
     return hashlib.sha256(repr(parts).encode()).hexdigest()
 
 
@@ -249,15 +242,16 @@ def search(ctx, corr, broken):
     from dali.device import general as dg
     found = []
     cand = []
-    for (dt, op), c in gg._StandardCommand._opcodes.items():
+    from gen import _registry as reg
+    for (dt, op), c in reg.std_registry()[0]:
         if isinstance(dt, int) and isinstance(op, int):
             for hi in (0x01, 0x7F, 0x81, 0xFF, 0xFD):
                 cand.append((16, (hi << 8) | (op & 0xFF), dt))
-    for op, c in gg._SpecialCommand._opcodes.items():
+    for op, c in reg.special_registry()[0]:
         if isinstance(op, int):
             for lo in (0, 1, 0x7F, 0x81, 0xFF):
                 cand.append((16, ((op & 0xFF) << 8) | lo, 0))
-    for op in list(dg._StandardDeviceCommand._opcodes) + list(dg._StandardInstanceCommand._opcodes):
+    for op in [k for k, _c in reg.devstd_registry()[0]] + [k for k, _c in reg.devinst_registry()[0]]:
         if isinstance(op, int):
             for up in (0x01FE, 0xFFFE, 0x0100, 0x81FF, 0xFD05, 0x0145):
                 cand.append((24, (up << 8) | (op & 0xFF), 0))
